@@ -264,6 +264,7 @@ def run_scripts(scripts, mode, seed, concurrent=False):
             lab.base = len(lab.net.socks)
             lab.log = []
             sc.set_budget(6000)
+            lab.config.LOGWIRE = len(traces) % 2 == 1    # (every other history with wire-level logging switched on)
             ser_id = serializers.serializers[ser].serializer_id
             clients = {}
             seqs = {1: 0, 2: 0}
@@ -440,6 +441,11 @@ def run_proxy_scripts(scripts):
                     tr.append({"e": "Saw", "tok": tok, "anns": tokens_of(cc.response_annotations), "hs": "HSHK" in cc.response_annotations})
             except S.Hang:
                 tr.append({"e": "Hang"})
+            except (S.SchedAbort, util.MachineryError):
+                raise
+            except Exception as x:
+                # (a proxy that cannot even connect: nothing to observe on the client side in this script)
+                tr.append({"e": "Note", "what": "%s: %s" % (type(x).__name__, str(x)[:100])})
             cc.annotations = {}
             cc.correlation_id = None
             for p in proxies.values():
